@@ -168,3 +168,39 @@ pub fn x_binary_search_keys<K: AsRef<str>>(v: &Vec<(QualifierKey, SmallString)>,
                 && (forall|j: int| i <= j < v.len() ==> key_cmp(#[trigger] v[j], lower_seq(key.text())) is Greater),
         },
 { v.binary_search_by(|(qk, _qv)| search_cmp(qk, key)) }
+
+/// the position of key `k` in a strictly ascending list = number of keys smaller than `k` (names the witness, so
+/// whole-content postconditions need no existential)
+pub open spec fn pos_of(v: Seq<(QualifierKey, SmallString)>, k: Seq<char>) -> int decreases v.len()
+{
+    if v.len() == 0 { 0 } else { pos_of(v.drop_last(), k) + if str_lt(v.last().0.0@, k) { 1int } else { 0int } }
+}
+
+pub proof fn lemma_pos_of(v: Seq<(QualifierKey, SmallString)>, k: Seq<char>, i: int)
+    requires 0 <= i <= v.len(),
+        forall|j: int| 0 <= j < i ==> str_lt(#[trigger] v[j].0.0@, k),
+        forall|j: int| i <= j < v.len() ==> !str_lt(#[trigger] v[j].0.0@, k),
+    ensures pos_of(v, k) == i
+    decreases v.len()
+{
+    if v.len() > 0 {
+        let w = v.drop_last();
+        if i == v.len() {
+            assert forall|j: int| 0 <= j < i - 1 implies str_lt(#[trigger] w[j].0.0@, k) by { assert(w[j] == v[j]); }
+            lemma_pos_of(w, k, i - 1);
+            assert(str_lt(v[v.len() - 1].0.0@, k));
+        } else {
+            assert forall|j: int| 0 <= j < i implies str_lt(#[trigger] w[j].0.0@, k) by { assert(w[j] == v[j]); }
+            assert forall|j: int| i <= j < w.len() implies !str_lt(#[trigger] w[j].0.0@, k) by { assert(w[j] == v[j]); }
+            lemma_pos_of(w, k, i);
+            assert(!str_lt(v[v.len() - 1].0.0@, k));
+        }
+    }
+}
+
+pub proof fn lemma_lt_asym(a: Seq<char>, b: Seq<char>)
+    requires str_lt(a, b)
+    ensures !str_lt(b, a)
+{
+    lemma_lex_flip(a, b);
+}
